@@ -236,10 +236,10 @@ func histBase(r *rand.Rand, layout int) *TableSpec {
 	return t
 }
 
-// histEdit derives the next table of one side: cell edits and removals of the rows the side owns,
+// c05HistEdit derives the next table of one side: cell edits and removals of the rows the side owns,
 // and at least one new row (a commit must change something). gen makes new keys and edits distinct
 // between successive derivations.
-func histEdit(r *rand.Rand, t *TableSpec, side, gen int) *TableSpec {
+func c05HistEdit(r *rand.Rand, t *TableSpec, side, gen int) *TableSpec {
 	out := &TableSpec{Columns: t.Columns, PK: t.PK}
 	kc := 0
 	iskey := map[int]bool{}
@@ -332,8 +332,8 @@ func genC05Hist(r *rand.Rand, shape int) *c05HInput {
 			layout = r.Intn(4)
 		}
 		base := histBase(r, layout)
-		x1, x2 := histEdit(r, base, 0, 1), histEdit(r, base, 1, 1)
-		tabs = []*TableSpec{base, x1, x2, histEdit(r, x1, 0, 2), histEdit(r, x2, 1, 2)}
+		x1, x2 := c05HistEdit(r, base, 0, 1), c05HistEdit(r, base, 1, 1)
+		tabs = []*TableSpec{base, x1, x2, c05HistEdit(r, x1, 0, 2), c05HistEdit(r, x2, 1, 2)}
 		family = []string{"pk-first", "pk-composite", "pk-elsewhere", "keyless"}[layout]
 	}
 	commit := func(b string, t int) c05HStep { return c05HStep{Op: "commit", Branch: b, Table: t} }
